@@ -565,3 +565,13 @@ mod tests {
         );
     }
 }
+
+/// Read-only accessor for the out-of-tree verification harness.
+/// Compiled only with the `verif` feature; adds no behaviour.
+#[cfg(feature = "verif")]
+impl ProtoHdr {
+    /// The raw Exchange Flags byte as decoded / as it would be encoded.
+    pub fn verif_exch_flag_bits(&self) -> u8 {
+        self.exch_flags.bits()
+    }
+}
